@@ -88,7 +88,7 @@ C11(c, o) ==
             \cup (IF res.kind = "ok" /\ Has(o, "out")
                   THEN Chk(ObservedGroupTable(o) = ExpectedGroupTable(S) /\ Len(o.out.groups) = Cardinality(GroupStrs(S)),
                            "emitted groups " \o ToJson(ObservedGroupTable(o)) \o " differ from declared " \o ToJson(ExpectedGroupTable(S)))
-                       \cup (IF Has(o.out, "pipeline_layout") /\ Has(o.out.pipeline_layout, "bgl_nos")
+                       \cup (IF BGD!Contract(d, res) /\ Has(o.out, "pipeline_layout") /\ Has(o.out.pipeline_layout, "bgl_nos")
                              THEN Chk(o.out.pipeline_layout.bgl_nos = RUN!GroupOrder(S),
                                       "the pipeline layout lists the layouts of groups " \o ToJson(o.out.pipeline_layout.bgl_nos) \o " instead of every group's own layout in index order")
                              ELSE {})
